@@ -97,7 +97,7 @@ def merge_and_view_forms(name_prefix, k0, tier):
         pairs = [p for p in pairs if p[0]["k"] != "bv" and p[1]["k"] != "bv"]
     for ta, tb in pairs:
         for dst in ([ta, tb] if ta != tb else [ta]):
-            for srcform in ("port", "signal", "counter"):
+            for srcform in ("port", "signal", "counter", "return"):
                 if tier == "quick" and srcform == "signal" and (ta["k"] == tb["k"]):
                     continue
                 if srcform == "counter" and (ta["k"] == "bv" or tb["k"] == "bv" or (tier == "quick" and ta["w"] != tb["w"])):
@@ -117,8 +117,16 @@ def merge_and_view_forms(name_prefix, k0, tier):
                     ctxs.append(seq_ctx("count", [assign("next", "xa", bin_("add", ref("xa"), pint(1)), form="attr"),
                                                   assign("next", "xb", bin_("add", ref("xb"), pint(1)), form="attr")]))
                     ea, eb = ref("xa"), ref("xb")
-                ctxs.append(seq_ctx("proc", [assign("next", "o", ifexp(ref("c"), ea, eb))]))
+                funcs = []
+                if srcform == "return":
+                    # C05 "function-return merge": the two return statements of a helper yield differently typed values
+                    pick = func("pick", [], [if_(ref("c"), [ret_(ea)], [ret_(eb)])])
+                    funcs = [pick]
+                    ctxs.append(seq_ctx("proc", [ucall(pick, [], ret="r1"), assign("next", "o", ref("r1"))]))
+                else:
+                    ctxs.append(seq_ctx("proc", [assign("next", "o", ifexp(ref("c"), ea, eb))]))
                 en = entity(f"{name_prefix}_{k:04d}", ports, objs, ctxs)
+                en["funcs"] = funcs
                 en["family"] = f"merge({tname(ta)},{tname(tb)})->{tname(dst)}:{srcform}"
                 ents.append(en)
                 k += 1
@@ -154,6 +162,55 @@ def local_init_forms(name_prefix, k0, tier):
     return ents
 
 
+def ty_src(t):
+    from adl import ty_py
+    return ty_py(t)
+
+
+def portconn_forms(name_prefix, k0, tier):
+    """C05 "port connection": a sub-entity passing its input to its output, instantiated with an actual whose type differs from
+    the formal's - on the input side (value flows actual -> formal) or on the output side (formal -> actual).
+    Reference description: the formal is a signal of the formal's type between the parent's ports."""
+    ents = []
+    k = k0
+    ws = (2, 3) if tier == "quick" else (1, 2, 3, 4)
+    vec = [T(kk, w) for kk in ("bv", "u", "s") for w in ws] + [BIT]
+    for side in ("in", "out"):
+        for outer in vec:
+            for formal in vec:
+                name = f"{name_prefix}_{k:04d}"
+                ta, td = (outer, formal) if side == "in" else (formal, outer)
+                src = f"""
+class Sub_{name}(cohdl.Entity):
+    a = Port.input({ty_src(formal)})
+    o = Port.output({ty_src(formal)})
+
+    def architecture(self):
+        @std.concurrent
+        def logic():
+            self.o <<= self.a
+
+
+class {name}(cohdl.Entity):
+    clk = Port.input(Bit)
+    a = Port.input({ty_src(ta)})
+    o = Port.output({ty_src(td)})
+
+    def architecture(self):
+        Sub_{name}(a=self.a, o=self.o)
+"""
+                ports = [port("clk", "in", BIT), port("a", "in", ta), port("o", "out", td)]
+                en = entity(name, ports, [obj("fa", "signal", formal), obj("fo", "signal", formal)],
+                            [conc_ctx("wire_in", [assign("next", "fa", ref("a"))]), conc_ctx("sub", [assign("next", "fo", ref("fa"))]),
+                             conc_ctx("wire_out", [assign("next", "o", ref("fo"))])])
+                en["source_override"] = src
+                en["family"] = f"portconn-{'same' if outer == formal else 'diff'}-{side}:{tname(outer)}<>{tname(formal)}"
+                en["may_reject"] = outer != formal          # requiring identical types at a port is a legitimate rule
+                ents.append(en)
+                k += 1
+    return ents
+
+
 def build(tier):
     maxw = 2 if tier == "quick" else 3
     ents = []
@@ -172,6 +229,7 @@ def build(tier):
     ents += slice_forms("E05", k, maxw + 1)
     ents += merge_and_view_forms("E05", len(ents), tier)
     ents += local_init_forms("E05", len(ents), tier)
+    ents += portconn_forms("E05", len(ents), tier)
     return ents
 
 
@@ -207,7 +265,7 @@ def run(tier):
                 V.machinery_error(f"spec error for {e['family']}: {sv}")
                 continue
             impl_accepts = ob["outcome"] == "accepted"
-            if spec_accepts == impl_accepts:
+            if spec_accepts == impl_accepts or (e.get("may_reject") and not impl_accepts):
                 agree += 1
                 if impl_accepts:
                     accepted.append(e)
